@@ -8,12 +8,24 @@ Only the expression-printing clause has a structural reading:
  R2  operator semantics: an operator printed for a Fortran operator must mean
      the same in C for integer and real operands; `**` must not be printed as
      a C operator (C has none) and logical operators must use C spellings.
-Not decided: array index/order translation, ISO-C wrapper, intrinsics.
+ R3  a cast binds tighter than every binary operator: the operand of
+     ``map_cast`` is rendered so that any binary-operator child is parenthesised
+     -- through ``parenthesize`` or ``parenthesize_if_needed`` with an enclosing
+     precedence above the child's own one, or a recursion precedence above
+     ``PREC_PRODUCT``.  ``(double) i / m`` divides in floating point.
+ R4  derived-type arguments are copied back for every intent that lets the
+     kernel write: the post-call ``transfer`` in the ISO-C wrapper is emitted for
+     ``intent(out)`` and ``intent(inout)`` (guard evaluated over the intent
+     domain).
+Not decided: array index/order translation, the rest of the ISO-C wrapper,
+intrinsics.
 """
 import ast
 
 from sa.printers import judge_printer
 from sa.mutate import Mutant
+from sa.model import AnalysisError, NOFOLD
+from sa import exprs as X
 
 PROP = 'C35'
 
@@ -49,8 +61,105 @@ def run(ctx):
                 ctx.judge('R2', inst, facts={'handler': f.qualname, 'literals': [l for l in lits if len(l) < 30][:6]})
     ctx.floor('R1', 'operator pairs judged', total, 200)
 
+    # ---- R3 cast operand
+    m = ctx.model
+    ctx.rule('R3', 'map_cast of the C-family printers: the operand is rendered with forced parentheses or a recursion precedence > PREC_PRODUCT')
+    ctx.rule('R4', 'generate_iso_c_wrapper_routine: the post-call copy-back of derived-type arguments is emitted for intent out and inout')
+    st = m.module('pymbolic.mapper.stringifier')
+    def prec(name, mod):
+        v = m.const(mod, ast.Name(id=name, ctx=ast.Load()))
+        if v is NOFOLD:
+            v2 = m.const(st, ast.Name(id=name, ctx=ast.Load()))
+            return v2
+        return v
+    seen = set()
+    for rel, cn, lang in PRINTERS:
+        C_ = m.get_class(rel, cn)
+        f = m.member_function(C_, 'map_cast')
+        if f is None:
+            raise AnalysisError(f'{cn}.map_cast vanished')
+        if f.fqn in seen:
+            ctx.judge('R3', f'{cn}.map_cast (inherited {f.qualname})', nontrivial=False)
+            continue
+        seen.add(f.fqn)
+        par = [a.arg for a in f.node.args.args][1]
+        # the expression through which `<expr>.parameters` reaches the output
+        ok, how = False, 'operand rendering not recognised'
+        for c_ in ast.walk(f.node):
+            if isinstance(c_, ast.Call) and isinstance(c_.func, ast.Attribute) and f'{par}.parameters' in ast.unparse(c_):
+                d = X.dotted_attr(c_.func) or ''
+                if d == 'self.parenthesize':
+                    ok, how = True, 'self.parenthesize(...)'
+                elif d == 'self.parenthesize_if_needed' and len(c_.args) >= 3:
+                    enc, own = (prec(ast.unparse(a_), f.module) for a_ in c_.args[1:3])
+                    inner = c_.args[0]
+                    if isinstance(enc, int) and isinstance(own, int) and enc > own and f'{par}.parameters' in ast.unparse(inner):
+                        ok, how = True, f'parenthesize_if_needed(.., {ast.unparse(c_.args[1])}, {ast.unparse(c_.args[2])}) always parenthesises'
+        if not ok:
+            # fall back: recursion precedence of the operand
+            pp = prec('PREC_PRODUCT', f.module)
+            for c_ in ast.walk(f.node):
+                if isinstance(c_, ast.Call) and (X.dotted_attr(c_.func) or '') in ('self.join_rec', 'self.rec') and f'{par}.parameters' in ast.unparse(c_):
+                    pa = [a_ for a_ in c_.args if isinstance(a_, ast.Name) and a_.id.startswith('PREC_')]
+                    if pa:
+                        pv = prec(pa[0].id, f.module)
+                        if isinstance(pv, int) and isinstance(pp, int) and pv > pp:
+                            ok, how = True, f'operand recursed with {pa[0].id} > PREC_PRODUCT'
+                        else:
+                            how = f'operand recursed with {pa[0].id} (not above PREC_PRODUCT) and no forced parentheses'
+        inst = f'{cn}.map_cast:operand'
+        if ok:
+            ctx.judge('R3', inst, facts={'how': how})
+        else:
+            ctx.violation('R3', inst, f.where,
+                          f'{f.qualname}: {how}: a product or quotient under a cast is printed without parentheses, `real(i/m)` becomes '
+                          f'`(double) i / m`, i.e. the integer division turns into a floating-point division')
+    # ---- R4
+    import types as _types
+    from sa.miniev import ev_ext, Unknown
+    gw = m.get_function('loki/transformations/transpile/fortran_iso_c_wrapper.py', 'generate_iso_c_wrapper_routine')
+    outs = None
+    for a_ in ast.walk(gw.node):      # the list appended to the body after the call statement
+        if isinstance(a_, ast.AugAssign) and isinstance(a_.value, ast.Name) and 'body' in ast.unparse(a_.target):
+            outs = a_.value.id
+    cands = [(n_, g_) for n_, g_ in X.nodes_with_guards(gw.node, lambda x: isinstance(x, ast.AugAssign) and isinstance(x.target, ast.Name)
+                                                        and 'transfer' not in ast.unparse(x) and isinstance(x.value, ast.List))]
+    post = [(n_, g_) for n_, g_ in cands if n_.target.id == outs]
+    if not post:
+        raise AnalysisError('generate_iso_c_wrapper_routine: post-call copy-back statements not found')
+    for n_, guards in post:
+        rel_g = [g for g in guards if 'intent' in g]
+        missing = []
+        for intent in ('out', 'inout'):
+            argv = next((l_.target.id for l_ in ast.walk(gw.node) if isinstance(l_, ast.For) and isinstance(l_.target, ast.Name)
+                         and n_ in list(ast.walk(l_))), 'arg')
+            env = {argv: _types.SimpleNamespace(type=_types.SimpleNamespace(intent=intent))}
+            try:
+                fires = all(bool(ev_ext(ast.parse(g, mode='eval').body, env)) for g in rel_g)
+            except Unknown as u:
+                raise AnalysisError(f'generate_iso_c_wrapper_routine: intent guard uses `{u}`, outside the evaluated fragment')
+            if not fires:
+                missing.append(intent)
+        inst = 'generate_iso_c_wrapper_routine:copy-back'
+        if missing:
+            ctx.violation('R4', inst, f'{gw.module.relpath}:{n_.lineno}',
+                          f'the copy-back of a derived-type argument after the kernel call is emitted under `{" and ".join(rel_g)}`, which '
+                          f'excludes intent {missing}: what the C kernel writes into such an argument never reaches the caller')
+        else:
+            ctx.judge('R4', inst, facts={'guards': rel_g})
+
 
 MUTANTS = [
+    Mutant('cast-operand-not-parenthesised', 'loki/backend/cgen.py',
+           "        expression = self.parenthesize_if_needed(\n            self.join_rec('', expr.parameters, PREC_NONE, *args, **kwargs),\n            PREC_CALL, PREC_NONE)",
+           "        expression = self.join_rec('', expr.parameters, PREC_PRODUCT, *args, **kwargs)", expect=('R3', 'map_cast:operand'),
+           also=[('loki/backend/cgen.py', "PREC_UNARY, PREC_LOGICAL_OR, PREC_LOGICAL_AND, PREC_NONE, PREC_CALL", "PREC_UNARY, PREC_PRODUCT, PREC_LOGICAL_OR, PREC_LOGICAL_AND, PREC_NONE, PREC_CALL")]),
+    Mutant('copy-back-inout-only', 'loki/transformations/transpile/fortran_iso_c_wrapper.py',
+           "            casts_out += [ir.Assignment(lhs=arg, rhs=cast_out)]", "            if arg.type.intent.lower() == 'inout':\n                casts_out += [ir.Assignment(lhs=arg, rhs=cast_out)]",
+           expect=('R4', 'copy-back')),
+    Mutant('neutral-copy-back-not-in', 'loki/transformations/transpile/fortran_iso_c_wrapper.py',
+           "            casts_out += [ir.Assignment(lhs=arg, rhs=cast_out)]", "            if arg.type.intent.lower() != 'in':\n                casts_out += [ir.Assignment(lhs=arg, rhs=cast_out)]",
+           expect=None),
     Mutant('c-not-uses-fortran-handler', 'loki/backend/cgen.py',
            "    def map_logical_not(self, expr, enclosing_prec, *args, **kwargs):\n        return self.parenthesize_if_needed(\n            \"!\" + self.rec(expr.child, PREC_UNARY, *args, **kwargs),",
            "    def map_logical_not(self, expr, enclosing_prec, *args, **kwargs):\n        return self.parenthesize_if_needed(\n            \".not.\" + self.rec(expr.child, PREC_UNARY, *args, **kwargs),",
